@@ -460,4 +460,24 @@ theorem general_normal (a b c : ℚ)
 
 end general
 
+theorem sums_perm {pts pts' : List (ℚ × ℚ)} (h : pts.Perm pts') :
+    sN pts = sN pts' ∧ sX pts = sX pts' ∧ sY pts = sY pts' ∧ sXX pts = sXX pts' ∧ sXXX pts = sXXX pts' ∧
+    sXXXX pts = sXXXX pts' ∧ sXY pts = sXY pts' ∧ sXXY pts = sXXY pts' ∧ sYY pts = sYY pts' :=
+  ⟨by unfold sN; rw [h.length_eq], S_perm h _, S_perm h _, S_perm h _, S_perm h _, S_perm h _, S_perm h _,
+    S_perm h _, S_perm h _⟩
+
+theorem sN_ge_one {pts : List (ℚ × ℚ)} (hne : pts ≠ []) : 1 ≤ sN pts := by
+  unfold sN
+  have : 1 ≤ pts.length := List.length_pos_iff.mpr hne
+  exact_mod_cast this
+
+theorem const_x_sums {pts : List (ℚ × ℚ)} {c : ℚ} (h : ∀ p ∈ pts, p.1 = c) :
+    sX pts = sN pts * c ∧ sXX pts = sN pts * (c * c) ∧ sXXX pts = sN pts * (c * c * c) ∧
+    sXXXX pts = sN pts * ((c * c) * (c * c)) := by
+  refine ⟨?_, ?_, ?_, ?_⟩
+  · unfold sX sN; rw [S_congr (g := fun _ => c) (fun p hp => h p hp), S_const]
+  · unfold sXX sN; rw [S_congr (g := fun _ => c * c) (fun p hp => by rw [h p hp]), S_const]
+  · unfold sXXX sN; rw [S_congr (g := fun _ => c * c * c) (fun p hp => by rw [h p hp]), S_const]
+  · unfold sXXXX sN; rw [S_congr (g := fun _ => (c * c) * (c * c)) (fun p hp => by rw [h p hp]), S_const]
+
 end Pymeeus.Refine.CurveFitting
